@@ -412,10 +412,11 @@ def s_getitem(obj, key):
                     if cand <= set(ks):
                         return v
                 groups = {i: (v, [k for k in ks if k in cand]) for i, (v, ks) in groups.items()}
-            for v, ks in groups.values():
-                if ks and core_b(sbool(core.int_member_term(key.t, ks))):
-                    return v
-            raise KeyError(key)
+            glist = [(v, ks) for v, ks in groups.values() if ks]
+            k = core.current().choose([core.int_member_term(key.t, ks) for _, ks in glist])
+            if k < 0:
+                raise KeyError(key)
+            return glist[k][0]
         return obj[core.concretize(key, limit=256)]
     if isinstance(key, SBytes):
         if isinstance(obj, dict):
